@@ -245,5 +245,29 @@ theorem protocol_persist_irrelevant {s : Sess} {t : TaskSpec} (h : ¬ PersistCon
   rw [hc]
   rfl
 
+theorem stateOf_fs {P : Project} {w w' : World} (h : w'.fs = w.fs) (v : Nat) : stateOf P w' v = stateOf P w v := by
+  unfold stateOf; rw [h]
+
+/-! ## a pick inside a build -/
+
+/-- The protocol of the pick `t` inside a whole build: the session `s1` it starts in (reached by
+the earlier picks), and how the build's result relates to what that one protocol did. -/
+theorem build_at {w : World} {picks : List Nat} {r : Result} {marks : List Nat}
+    (hd : createDag P cfg = .ok (g, marks)) (hb : build F P cfg w picks = .ok r)
+    {pre post : List Nat} {t : Nat} (hp : picks = pre ++ t :: post) :
+    ∃ s1 spec s', Steps F P g cfg { w := w, skipMarks := marks } pre s1 ∧ Project.find? P t = some spec ∧ spec.id = t ∧
+      Steps F P g cfg (protocol F P g cfg s1 spec) post s' ∧ t ∉ pre ∧ t ∉ post ∧
+      r.reports = s'.reports ∧ r.log = s'.log ∧ r.w = s'.w ∧ t ∉ s1.log ∧ (∀ o, (t, o) ∉ s1.reports) ∧
+      (t ∈ r.log ↔ t ∈ (protocol F P g cfg s1 spec).log) ∧
+      (∀ o, (t, o) ∈ r.reports ↔ (t, o) ∈ (protocol F P g cfg s1 spec).reports) := by
+  obtain ⟨_, _, s', _, _, hs, hnd, _, hr, hl, hw, _⟩ := build_run hd hb
+  subst hp
+  obtain ⟨s1, spec, h1, hf, hid, h2, hl1, hr1, hl2, hr2⟩ := hs.pick hnd
+  have hpre : t ∉ pre := fun hm => (List.nodup_append.1 hnd).2.2 t hm t (by simp) rfl
+  have hpost : t ∉ post := (List.nodup_cons.1 (List.nodup_append.1 hnd).2.1).1
+  refine ⟨s1, spec, s', h1, hf, hid, h2, hpre, hpost, hr, hl, hw, ?_, ?_, by rw [hl]; exact hl2, fun o => by rw [hr]; exact hr2 o⟩
+  · intro h; have := hl1.1 h; simp at this
+  · intro o h; have := (hr1 o).1 h; simp at this
+
 end Engine
 end Pytask
